@@ -3942,6 +3942,20 @@ static Token *global_variable(Token *tok, Type *basety, VarAttr *attr) {
     if (is_variably_modified(ty))
       error_tok(ty->name, "variably modified type is not allowed in this declaration");
 
+    // A redeclaration with an incomplete array type does not hide the
+    // bound an earlier declaration of the object gave: the composite
+    // type of "int a[5]; int a[];" is int[5].
+    if (ty->kind == TY_ARRAY && ty->size < 0) {
+      VarScope *sc = find_var(ty->name);
+      if (sc && sc->var && !sc->var->is_local && !sc->var->is_function &&
+          sc->var->ty->kind == TY_ARRAY && sc->var->ty->size >= 0) {
+        Type *ty2 = array_of(ty->base, sc->var->ty->array_len);
+        ty2->name = ty->name;
+        ty2->name_pos = ty->name_pos;
+        ty = ty2;
+      }
+    }
+
     Obj *var = new_gvar(get_ident(ty->name), ty);
     var->is_definition = !attr->is_extern;
     var->is_static = attr->is_static;
